@@ -471,11 +471,11 @@ class SelectWith(Statement):
         arg: Value = self._arg
 
         if isinstance(TypeQualifier.decay(arg.result), BitVector):
-            root = TypeQualifier.decay(arg.result._root)
+            root_type = _declared_vector_type(arg.result)
 
-            if isinstance(root, Unsigned):
+            if issubclass(root_type, Unsigned):
                 arg = Value(arg.result.unsigned)
-            elif isinstance(root, Signed):
+            elif issubclass(root_type, Signed):
                 arg = Value(arg.result.signed)
             else:
                 arg = Value(arg.result.bitvector)
@@ -509,6 +509,17 @@ class SelectWith(Statement):
         )
 
 
+def _declared_vector_type(obj: TypeQualifier):
+    # The VHDL type of a reference is determined by the declaration of the root object,
+    # for elements of arrays it is the element type of the array.
+    result = type(TypeQualifier.decay(obj._root))
+
+    while issubclass(result, Array):
+        result = result._elemtype_
+
+    return result
+
+
 class CaseWhen(Statement):
     def __init__(
         self,
@@ -526,11 +537,11 @@ class CaseWhen(Statement):
         cond: Value = self._cond
 
         if isinstance(TypeQualifier.decay(cond.result), BitVector):
-            root = TypeQualifier.decay(cond.result._root)
+            root_type = _declared_vector_type(cond.result)
 
-            if isinstance(root, Unsigned):
+            if issubclass(root_type, Unsigned):
                 cond = Value(cond.result.unsigned)
-            elif isinstance(root, Signed):
+            elif issubclass(root_type, Signed):
                 cond = Value(cond.result.signed)
             else:
                 cond = Value(cond.result.bitvector)
